@@ -173,6 +173,17 @@ def _heater_job(job):
             exp = tuple(ref_temp((raw + off) % 65536, unit) for off in (0, 3, 7))
             if got != exp:
                 return job, n, ("reading", f"unit {unit} raw {raw}: heater reads {got}, expected {exp}"), None
+        # the three readings are independent of each other: every combination of boundary words (0 included)
+        for r3 in itertools.product((0, 1, 684, 65535), repeat=3):
+            blk = b0
+            for k, r in zip(("SetpointG", "DisplayedTempG", "RealSetPointG"), r3):
+                blk = f[k].put_raw(blk, r)
+            st.set_status_block(blk)
+            n += 1
+            got = (heater.target_temperature, heater.current_temperature, heater.real_target_temperature)
+            exp = tuple(ref_temp(r, unit) for r in r3)
+            if got != exp:
+                return job, n, ("reading", f"unit {unit} words (set point, current, real set point) = {r3}: heater reads {got}, expected {exp}"), None
         # unit flipped while the stored readings stay: readings, symbol and limits must all follow
         for raw in (540, 684):
             blk = b0
